@@ -119,7 +119,7 @@ macro_rules! impl_api {
 
             /// Answer `q` on a parsed cache. `visit` sees every borrowed `&str` the library returned.
             pub fn answer_cache_with<'a>(c: &'a ProguardCache<'a>, q: &'a Query, visit: &mut dyn FnMut(&str)) -> String {
-                answer_cache_stepped(c, q, visit, &mut || {})
+                answer_cache_stepped(c, q, visit, &mut || false)
             }
 
             /// `step` is called between successive `next()` calls of a frame iterator (a scheduling point).
@@ -127,7 +127,7 @@ macro_rules! impl_api {
                 c: &'a ProguardCache<'a>,
                 q: &'a Query,
                 visit: &mut dyn FnMut(&str),
-                step: &mut dyn FnMut(),
+                step: &mut dyn FnMut() -> bool,
             ) -> String {
                 let mut out = String::new();
                 match q {
@@ -153,7 +153,11 @@ macro_rules! impl_api {
                         };
                         let mut it = c.remap_frame(&f);
                         loop {
-                            step();
+                            if step() {
+                                // fork: a clone of the half-consumed iterator is drained; the original must not notice
+                                let forked = it.clone();
+                                let _ = forked.count();
+                            }
                             match it.next() {
                                 Some(fr) => render_frame(&mut out, &fr, visit),
                                 None => break,
@@ -164,7 +168,11 @@ macro_rules! impl_api {
                         let f = StackFrame::with_parameters(class, method, params);
                         let mut it = c.remap_frame(&f);
                         loop {
-                            step();
+                            if step() {
+                                // fork: a clone of the half-consumed iterator is drained; the original must not notice
+                                let forked = it.clone();
+                                let _ = forked.count();
+                            }
                             match it.next() {
                                 Some(fr) => render_frame(&mut out, &fr, visit),
                                 None => break,
@@ -208,7 +216,7 @@ macro_rules! impl_api {
                             );
                         }
                     },
-                    Query::MapUuid | Query::MapSummary | Query::MapHasLineInfo | Query::MapIsValid => out.push_str("n/a"),
+                    Query::MapUuid | Query::MapSummary | Query::MapHasLineInfo | Query::MapIsValid | Query::MapSection(_) => out.push_str("n/a"),
                 }
                 out
             }
@@ -219,10 +227,10 @@ macro_rules! impl_api {
 
             /// Same rendering for the in-memory mapper.
             pub fn answer_mapper<'a>(m: &'a ProguardMapper<'a>, q: &'a Query) -> String {
-                answer_mapper_stepped(m, q, &mut || {})
+                answer_mapper_stepped(m, q, &mut || false)
             }
 
-            pub fn answer_mapper_stepped<'a>(m: &'a ProguardMapper<'a>, q: &'a Query, step: &mut dyn FnMut()) -> String {
+            pub fn answer_mapper_stepped<'a>(m: &'a ProguardMapper<'a>, q: &'a Query, step: &mut dyn FnMut() -> bool) -> String {
                 let mut out = String::new();
                 let visit: &mut dyn FnMut(&str) = &mut |_| {};
                 match q {
@@ -239,7 +247,11 @@ macro_rules! impl_api {
                         };
                         let mut it = m.remap_frame(&f);
                         loop {
-                            step();
+                            if step() {
+                                // fork: a clone of the half-consumed iterator is drained; the original must not notice
+                                let forked = it.clone();
+                                let _ = forked.count();
+                            }
                             match it.next() {
                                 Some(fr) => render_frame(&mut out, &fr, visit),
                                 None => break,
@@ -250,7 +262,11 @@ macro_rules! impl_api {
                         let f = StackFrame::with_parameters(class, method, params);
                         let mut it = m.remap_frame(&f);
                         loop {
-                            step();
+                            if step() {
+                                // fork: a clone of the half-consumed iterator is drained; the original must not notice
+                                let forked = it.clone();
+                                let _ = forked.count();
+                            }
                             match it.next() {
                                 Some(fr) => render_frame(&mut out, &fr, visit),
                                 None => break,
@@ -285,7 +301,7 @@ macro_rules! impl_api {
                             );
                         }
                     },
-                    Query::MapUuid | Query::MapSummary | Query::MapHasLineInfo | Query::MapIsValid => out.push_str("n/a"),
+                    Query::MapUuid | Query::MapSummary | Query::MapHasLineInfo | Query::MapIsValid | Query::MapSection(_) => out.push_str("n/a"),
                 }
                 out
             }
@@ -307,6 +323,21 @@ pub fn answer_mapping(m: &proguard::ProguardMapping<'_>, q: &Query) -> String {
         }
         Query::MapHasLineInfo => m.has_line_info().to_string(),
         Query::MapIsValid => m.is_valid().to_string(),
+        Query::MapSection(k) => {
+            let sec = m.section(0..*k);
+            let s = sec.summary();
+            format!(
+                "{:?}|{:?}|{:?}|{}|{}|{}|{}|{}",
+                s.compiler(),
+                s.compiler_version(),
+                s.min_api(),
+                s.class_count(),
+                s.method_count(),
+                sec.has_line_info(),
+                sec.is_valid(),
+                sec.uuid()
+            )
+        }
         _ => "n/a".into(),
     }
 }
